@@ -1,6 +1,6 @@
 (* C01 — every registered pipeline of the event's type sees the event, in node order. *)
 From Coq Require Import List Bool NArith Permutation.
-From Verif Require Import Alist Broker Dispatch DispatchProofs DispatchAcceptProofs Run_Dispatch DispatchExamples.
+From Verif Require Import Alist Broker Dispatch DispatchProofs DispatchAcceptProofs Run_Dispatch DispatchExamples RunDispatchSound.
 Import ListNotations.
 
 (* One traversal: the nodes invoked are an initial segment of the pipeline's nodes in registration order, each position
@@ -74,6 +74,26 @@ Theorem C01_accepted_trace_is_execution : forall beh e0 want roots c0 tr a,
   reach beh e0 roots c0 (a_st a).
 Proof. exact accepted_trace_is_execution. Qed.
 Print Assumptions C01_accepted_trace_is_execution.
+
+(* What the check's verdict means: the evaluated function [Run_Dispatch.mismatches] returns [] exactly when, for every case,
+   the recorded trace is an execution of the dispatch model from the pipelines and thresholds the registry model gives for
+   the recorded registration history, complete once quiet, the returned Status / error and the nodes' own logs are the
+   model's, and the observation-only oracles hold ([RunDispatchSound.case_ok]); both directions. *)
+Theorem C01_verdict_is_model_execution : forall cs, mismatches cs = [] <-> Forall case_ok cs.
+Proof. exact mismatches_nil_iff. Qed.
+Print Assumptions C01_verdict_is_model_execution.
+
+(* and therefore, for an accepted quiet Send whose context was not cancelled beforehand: the model execution is terminal, the
+   nodes' own invocation log is its call log, and — context never cancelled — that call log is exactly the multiset of the
+   sequential traversals of the registry model's pipelines for the type *)
+Theorem C01_verdict_calls_are_traversals : forall c roots, case_ok c -> model_roots c = Some roots -> roots_ok roots ->
+  d_quiet c = true -> d_pre c = false ->
+  exists a, reach (beh_of (d_trace c)) (e0_of (d_trace c)) roots false (a_st a) /\ terminal (a_st a) /\
+            sortN (map (fun cl => enc (nobj (fst cl)) (snd cl)) (clog (a_st a))) = sortN (map (fun oc => enc (fst oc) (snd oc)) (d_nodecalls c)) /\
+            (ctx (a_st a) = false ->
+             Permutation (clog (a_st a)) (flat_map (calls_of (beh_of (d_trace c)) (e0_of (d_trace c))) roots)).
+Proof. exact verdict_calls_are_traversals. Qed.
+Print Assumptions C01_verdict_calls_are_traversals.
 
 Theorem C01_nonvacuous :
   roots_ok ex_roots /\ reach ex_beh ex_e0 ex_roots false ex_final /\ terminal ex_final /\ ctx ex_final = false /\
